@@ -374,6 +374,15 @@ impl TaskState<'_> {
 
 impl Drop for TaskState<'_> {
     fn drop(&mut self) {
+        // This task will never be polled again, so it needs no more wakeups.
+        // Wakers handed out to other tasks may outlive this task, and if it is
+        // destroyed while sleeping (e.g. it was cancelled) a late `wake` must
+        // not try to signal the inter-task stream whose read end is about to
+        // be dropped.
+        self.shared
+            .sleep_state
+            .store(SLEEP_STATE_WOKEN, Ordering::Relaxed);
+
         // If there's an active read of the inter-task stream, go ahead and
         // cancel it, since we're about to drop the stream anyway.
         self.cancel_inter_task_stream_read();
